@@ -340,8 +340,6 @@ package geom
 //@   trusted
 //@ func GeometryCollection.Simplify
 //@   trusted
-//@ func GeometryCollection.Validate
-//@   trusted
 //@ func NewGeometryCollection
 //@   assumeinv
 //@   requires forall k :: 0 <= k && k < len(geoms) ==> GShape(geoms[k]) && CTypeOf(geoms[k]) < 4
